@@ -3,7 +3,7 @@
 (* Observers and I/O: ToCSV / ToJSON / String / ReadCSV / ReadJSON /       *)
 (* ToSQL / ReadSQL.  (Grows per property; see Csv.tla, JsonG.tla.)         *)
 (***************************************************************************)
-EXTENDS ApplyEval
+EXTENDS Str
 
 \* a frame rebuilt with New from the observed values of another (C09): enum tables are re-derived
 RebuildSem(f) ==
@@ -18,9 +18,38 @@ RebuildSem(f) ==
 IORes(ok, miss, unspec) ==
   [ok |-> ok, miss |-> miss, unspec |-> unspec, newf |-> <<>>, newd |-> <<>>, newg |-> <<>>, newgd |-> <<>>, newvd |-> <<>>]
 
+\* ToCSV / ToJSON report an error exactly when the frame carries one (C10) or the writer options are invalid
+ToCsvArgsBad(f, a) == a.hascols = 1 /\ (Len(a.cols) # Len(f.cols) \/ \E i \in 1..Len(a.cols) : ~HasCol(f, a.cols[i]))
+
 JudgeIO(e, Fr, Gr) ==
   LET R == Fr[e.recv + 1] IN
-  CASE e.op \in {"ToCSV", "ToJSON"} -> IORes((e.err = 1) = R.err, FALSE, FALSE)
-    [] e.op = "String" -> IORes(TRUE, FALSE, FALSE)
+  CASE e.op = "ToCSV" ->
+         IF R.err THEN IORes(e.err = 1, FALSE, FALSE)
+         ELSE IF ToCsvArgsBad(R, e.a) THEN IORes(e.err = 1, FALSE, FALSE)
+         ELSE IF e.a.hascols = 1 /\ HasDup(e.a.cols) THEN IORes(TRUE, FALSE, TRUE)
+         ELSE IORes(e.err = 0 /\ ToCsvOK(R, e.a.header, e.a.hascols, e.a.cols, e.bytes, e.txt), FALSE, FALSE)
+    [] e.op = "ToJSON" ->
+         IF R.err THEN IORes(e.err = 1, FALSE, FALSE)
+         ELSE IF \E c \in 1..Len(R.cols) : R.cols[c].typ = "float" /\ \E r \in 1..R.n : e.txt[c][r] \in {<<0, 43, 73, 110, 102>>, <<0, 45, 73, 110, 102>>}
+              THEN IORes(TRUE, FALSE, TRUE)           \* JSON has no infinities: C14 speaks of finite floats and NaN only
+         ELSE IORes(e.err = 0 /\ ToJsonOK(R, e.bytes, e.txt), FALSE, FALSE)
+    [] e.op = "String" ->
+         IF R.err THEN IORes(TRUE, FALSE, FALSE)          \* prints the error text, which is not specified
+         ELSE IORes(e.bytes = StringSem(R, e.txt), FALSE, FALSE)
+    [] e.op = "ReadCSV" ->
+         LET v == ReadCsvOK(e.a.doc, e.a.conf, e.a.parse, e.obs)
+             exp == CsvFrameSem(Denote(e.a.doc, e.a.conf.delim, v # "b"), e.a.conf, e.a.parse)
+             rtOK == e.a.rt < 0 \/ Fr[e.a.rt + 1].err \/ ObsMatches(NullRule(Fr[e.a.rt + 1], e.a.conf.emptynull), e.obs)
+         IN IF v = "unspec" THEN [IORes(TRUE, FALSE, TRUE) EXCEPT !.newf = <<ErrFrame>>, !.newd = <<e.dig>>]
+            ELSE IF v = "miss" THEN [IORes(TRUE, TRUE, FALSE) EXCEPT !.newf = <<ErrFrame>>, !.newd = <<e.dig>>]
+            ELSE [IORes(v # "bad" /\ rtOK, FALSE, FALSE) EXCEPT !.newf = <<exp>>, !.newd = <<e.dig>>]
+    [] e.op = "ReadJSON" ->
+         LET exp == ReadJsonSem(e.a.doc, e.a.conf, e.a.fparse)
+             \* C14: reading back what ToJSON wrote reproduces the frame (ints return as equal floats)
+             rtOK == e.a.rt < 0 \/ ~JsonRoundTripApplies(Fr[e.a.rt + 1]) \/ JsonRoundTripOK(Fr[e.a.rt + 1], e.a.conv, e.obs) IN
+         IF IsUnspec(exp) THEN [IORes(TRUE, FALSE, TRUE) EXCEPT !.newf = <<ErrFrame>>, !.newd = <<e.dig>>]
+         ELSE IF ~exp.err /\ (\E c \in 1..Len(exp.cols) : \E r \in 1..Len(exp.cols[c].cells) : exp.cols[c].cells[r] = <<2>>)
+              THEN [IORes(TRUE, TRUE, FALSE) EXCEPT !.newf = <<ErrFrame>>, !.newd = <<e.dig>>]
+         ELSE [IORes(ObsMatches(exp, e.obs) /\ rtOK, FALSE, FALSE) EXCEPT !.newf = <<exp>>, !.newd = <<e.dig>>]
     [] OTHER -> IORes(TRUE, TRUE, FALSE)
 =============================================================================
